@@ -19,7 +19,7 @@ correspondence of harness/props/c08.py, which labels every real file-layer call 
   file-layer object, is emitted CONSERVATIVELY as `opaque`: any number of file-layer calls followed by a possible
   raise.  Calls to other entry points are opaque too (each entry point has its own skeleton).  Nothing is skipped
   except statements taken not to raise (assignments to local names of constants, names, attributes of plain
-  objects, and arithmetic/concatenation/%-formatting of those; imports, `pass`, docstrings); a statement
+  objects; imports, `pass`, docstrings); a statement
   or `if`/`for` head without any call still gets a raise point (`mayRaise`).
 * `X.f = []`-like assignments through a name derived from the document argument are `mutate f`; a later
   `X.f.append(..)` / `X.f = ..` (or a `for` whose body is only that) is `restore f`; any other assignment through a
@@ -401,6 +401,11 @@ class Extractor:
                 if eff is not None:
                     if guarded:
                         items.append(("unsupported", site))
+                    argv = [a.value if isinstance(a, ast.Starred) else a for a in n.args] + \
+                           [k.value for k in n.keywords]
+                    if not all(self.trivial_expr(ctx, a) for a in argv) and not (items and items[-1][0] == "OPQ"):
+                        # evaluating the arguments can raise before the call is made
+                        items.append(("mayRaise", self.oid(n, "ar"), site))
                     self.note_call(site, code)
                     items.append(("call", eff, site))
                     return
@@ -549,10 +554,15 @@ class Extractor:
             # attribute of a plain (non file-layer) object or module
             return self.trivial_expr(ctx, e.value) and not self.is_tracked_expr(ctx, e)
         if isinstance(e, ast.BinOp):
-            # arithmetic / concatenation / %-formatting of plain values
-            return self.trivial_expr(ctx, e.left) and self.trivial_expr(ctx, e.right)
-        if isinstance(e, ast.JoinedStr):
+            # only constant folding; `'population_' + self.id` raises TypeError for an id that is None
+            return self.const_expr(e.left) and self.const_expr(e.right)
+        return False
+
+    def const_expr(self, e):
+        if isinstance(e, ast.Constant):
             return True
+        if isinstance(e, ast.BinOp):
+            return self.const_expr(e.left) and self.const_expr(e.right)
         return False
 
     def trivial_stmt(self, ctx, stmt):
